@@ -14,7 +14,7 @@ def judge(case):
     p = realrun.loads(d["text"])[1]
     for g in (1, 2):
         p = realrun.loads(blackbird.dumps(p))[1]
-        why = progcmp.cmp_program(case["out"]["prog"], p, sections=("vars", "params"), num_kind=False)
+        why = progcmp.cmp_program(case["out"]["prog"], p, sections=("vars", "params"), num_kind=False, allow_hoisted=True)
         if why:
             return "bad", dict(d, reason="generation %d of the tdm program: %s; serialised text:\n%s" % (g, why, blackbird.dumps(p)))
     return st, d
